@@ -236,6 +236,9 @@ def gen_spec(rng, depth=2, allow_lax=False, abstract=False, logic=True, hashable
         if ENABLE_CONTAINS and rng.random() < 0.4:
             return gen_contains(rng, o)
         cons, lax = gen_constraints(rng, o, allow_lax)
+        if cons and rng.random() < 0.2:
+            # a bare (untyped) constrained container: the converter's same-type shortcut hands the caller's own object on
+            return ("con", o, cons, lax, ())
         elem = gen_spec(rng, 0, allow_lax, hashable=True)
         if cons:
             return ("con", o, cons, lax, (elem,))
@@ -498,6 +501,8 @@ def gen_input(rng, spec, depth=0):
         _, oname, cons, lax, args = spec
         if args:
             return _gen_container_input(rng, oname if oname != "tuple" else "tuple_var", args, depth, cons)
+        if oname in ("list", "tuple", "set", "frozenset", "deque"):
+            return _gen_container_input(rng, oname if oname != "tuple" else "tuple_var", (("leaf", rng.choice(["int", "str"])),), depth, cons)
         r = rng.random()
         cd = dict(cons)
         if r < 0.55:
